@@ -18,6 +18,11 @@ CHECKS = {
             'Random histories (constructor form + up to 25/40 operations incl. one-shot iterators, update forms, |=, pops, popitem, copy/deepcopy/pickle replacing the object under test) over a pool of colliding keys; after every step ~45 reads (items/keys/values multi on/off, get/getlist/[]/in for every pool key, reversed, todict, counts, inverted, sorted, sortedvalues, views, repr, ==/!= against 10 perturbed OMDs and dicts) are compared with an independent PairList model. Exploration is the right level for an unbounded history space; key/value pools are small so collisions and multi-value keys dominate.',
             'Trusts the 60-line PairList model; popitem is only loosely constrained; update_extend(self) and NaN keys not generated; FastIterOrderedMultiDict out of scope.',
             'DESIGN.md section 2, C01'),
+    'C17': ('exploration',
+            'model-based testing: Hypothesis-generated histories applied to forward or inverse objects of several live instances, compared with a dict-bijection / set-of-pairs reference after every step; FrozenDict mutator matrix',
+            'Random histories (<=20/30 ops, each aimed at o or o.inv, at any of up to 4 live instances created by copy()/construction/update from one another) against a reference bijection (OneToOne) or set of pairs (ManyToMany); after every step every live instance is checked on both sides (contents, exact inverse, no empty entries, inv.inv identity, per-key reads), which is what exposes aliasing between instances. FrozenDict: all 14 mutator forms must raise TypeError and leave the content unchanged; hash/eq under two insertion orders; unhashable values; updated/copy/deepcopy/pickle.',
+            'Trusts the reference models; popitem and replace-onto-existing-key are only constrained to be consistent; update(**kw) without positional is not generated.',
+            'DESIGN.md section 2, C17'),
 }
 
 NOT_YET = 'check not built yet in this revision of /verif (work in progress; see DESIGN.md section 8)'
